@@ -14,6 +14,13 @@ def exceptJson (r : Except String (List Rat)) : Json :=
   | .ok l => rats l
   | .error e => Json.mkObj [("err", Json.str e)]
 
+/-- Inputs longer than this are "long": their specification is evaluated through the one-pass
+    recursion `…SpecRec` (linear time) instead of the closed form (quadratic).  The two are equal
+    for all inputs: `ALV.Props.C20.rat_spec_recursions`. -/
+def longLen : Nat := 64
+
+def specForm (long : Bool) : Json := Json.str (if long then "recursion" else "closed")
+
 /-- is `d` an integer multiple of `step` (step ≠ 0) -/
 def isMultiple (step d : Rat) : Bool := (d / step).den == 1
 
@@ -24,12 +31,14 @@ def handle (entry : String) (j : Json) : Except String Json := do
     if size = 0 then throw "size must be positive"
     let zero ← getRat (fieldD j "zero" (Json.int 0))
     let xs ← getList getRat (← field j "xs")
-    pure <| Json.mkObj [
+    let long := xs.length > longLen
+    pure <| Json.mkObj ([
       ("deque", rats (R.maverageDeque size zero xs)),
       ("recursive", rats (R.maverageRecursive size zero xs)),
       ("fir", rats (R.maverageFir size zero xs)),
-      ("spec", rats (R.mavgSpec size zero xs)),
-      ("closed", rats (R.mavgClosed size zero xs))]
+      ("spec", rats (if long then R.mavgSpecRec size zero xs else R.mavgSpec size zero xs)),
+      ("spec_form", specForm long)] ++
+      (if long then [] else [("closed", rats (R.mavgClosed size zero xs))]))
   | "accumulate" =>
     let zero ← getRat (fieldD j "zero" (Json.int 0))
     let xs ← getList getRat (← field j "xs")
@@ -37,7 +46,8 @@ def handle (entry : String) (j : Json) : Except String Json := do
       ("func", rats (R.accumulateFunc xs)),
       ("it", rats (R.accumulateIt xs)),
       ("z", rats (R.accumulateZ zero xs)),
-      ("spec", rats (R.accSpec xs))]
+      ("spec", rats (if xs.length > longLen then R.accSpecRec xs else R.accSpec xs)),
+      ("spec_form", specForm (xs.length > longLen))]
   | "amdf" =>
     let lag ← getNat (← field j "lag")
     let size ← getNat (← field j "size")
@@ -46,7 +56,17 @@ def handle (entry : String) (j : Json) : Except String Json := do
     let xs ← getList getRat (← field j "xs")
     pure <| Json.mkObj [
       ("model", rats (R.amdf lag size zero xs)),
-      ("spec", rats (R.amdfSpec lag size zero xs))]
+      ("spec", rats (if xs.length > longLen then R.amdfSpecRec lag size zero xs else R.amdfSpec lag size zero xs)),
+      ("spec_form", specForm (xs.length > longLen))]
+  | "envelope_float" =>
+    -- long inputs: the same polymorphic model instantiated at `Float` (exact rationals of a
+    -- recursive filter grow by ~50 bits per sample); compared with tolerance on the harness side
+    let b ← getList getFloat (← field j "b")
+    let a ← getList getFloat (← field j "a")
+    let xs ← getList getFloat (← field j "xs")
+    pure <| Json.mkObj [
+      ("abs", arr floatToJson (envelopeAbs b a xs)),
+      ("squared", arr floatToJson (envelopeSquared b a xs))]
   | "envelope" =>
     let b ← getList getRat (← field j "b")
     let a ← getList getRat (← field j "a")
@@ -78,7 +98,8 @@ def handle (entry : String) (j : Json) : Except String Json := do
     let xs ← getList getRat (← field j "xs")
     pure <| Json.mkObj [
       ("model", nats (R.zcross h fs xs)),
-      ("spec", nats (R.zcrossSpec h fs xs))]
+      ("spec", nats (if xs.length > longLen then R.zcrossSpecRec h fs xs else R.zcrossSpec h fs xs)),
+      ("spec_form", specForm (xs.length > longLen))]
   | "unwrap" =>
     let md ← getRat (← field j "max_delta")
     let step ← getRat (← field j "step")
@@ -90,7 +111,8 @@ def handle (entry : String) (j : Json) : Except String Json := do
     let adj := (List.zipWith (fun y0 y1 => !(decide (bound < absG (y1 - y0)))) m (m.drop 1)).all id
     pure <| Json.mkObj [
       ("model", rats m),
-      ("spec", rats (R.unwrapSpec md step xs)),
+      ("spec", rats (if xs.length > longLen then R.unwrapSpecRec md step xs else R.unwrapSpec md step xs)),
+      ("spec_form", specForm (xs.length > longLen)),
       ("multiple", Json.bool multiple),
       ("adjacent", Json.bool adj)]
   | "coeffs" =>
